@@ -348,12 +348,27 @@ def _scen_worker(args):
     mod = importlib.import_module(modname)
     shims.patch_quansino(extra=getattr(mod, "patch_extra", lambda: None)())
     fn = mod.SCENARIOS[name]
+    if isinstance(params.get("_opts"), dict):
+        # per-scenario solver budgets (the scenario function accepts and ignores `_opts`)
+        opts = {**opts, **params["_opts"]}
     symx._install_monitor()
     mk = (lambda: symx.CanarySym(canary_label)) if canary_label else symx.Sym
     if canary_label:
         opts = dict(opts)
         opts["no_witness"] = True
-    res = symx.explore(lambda: fn(mk(), **params), opts, workers=1, deadline_s=opts.get("deadline_s"))
+    conn = args[5] if len(args) > 5 else None
+    last = [time.time()]
+
+    def progress(res):
+        # failures found so far survive a kill at the wall-clock limit (sent at most every 10 s)
+        if conn is not None and res.failures and time.time() - last[0] > 10:
+            last[0] = time.time()
+            try:
+                conn.send(("partial", res))
+            except Exception:  # noqa: BLE001
+                pass
+
+    res = symx.explore(lambda: fn(mk(), **params), opts, workers=1, deadline_s=opts.get("deadline_s"), progress=progress)
     res.functions.update(symx._seen_code)
     return res
 
@@ -387,7 +402,7 @@ def run_plan(rep, plan, scenarios, opts, workers=None, canaries=()):
 
     def child(conn, arg):
         try:
-            r = _scen_worker(arg)
+            r = _scen_worker(tuple(arg) + (conn,))
             conn.send(r)
         except BaseException as ex:  # noqa: BLE001
             try:
@@ -400,6 +415,7 @@ def run_plan(rep, plan, scenarios, opts, workers=None, canaries=()):
 
     queue = list(range(len(items)))
     running = {}
+    partial = {}
     while queue or running:
         while queue and len(running) < workers:
             k = queue.pop(0)
@@ -413,9 +429,13 @@ def run_plan(rep, plan, scenarios, opts, workers=None, canaries=()):
         for k, (pr, pc, t0) in running.items():
             if pc.poll(0):
                 try:
-                    results[k] = pc.recv()
+                    got = pc.recv()
                 except (EOFError, OSError) as ex:
-                    results[k] = RuntimeError(f"worker died: {ex}")
+                    got = RuntimeError(f"worker died: {ex}")
+                if isinstance(got, tuple) and len(got) == 2 and got[0] == "partial":
+                    partial[k] = got[1]
+                    continue
+                results[k] = got
                 done.append(k)
             elif not pr.is_alive():
                 results[k] = RuntimeError("worker exited without a result")
@@ -423,6 +443,9 @@ def run_plan(rep, plan, scenarios, opts, workers=None, canaries=()):
             elif time.time() - t0 > limit:
                 pr.kill()
                 results[k] = None
+                if k in partial:
+                    results[k] = partial[k]
+                    results[k].bound_hits.append(f"scenario wall-clock limit ({limit:.0f}s) hit after {partial[k].paths} paths (failures found until then are kept)")
                 done.append(k)
         for k in done:
             pr, pc, _ = running.pop(k)
